@@ -244,6 +244,15 @@ def run_kani_unit(plan, k, out, tier):
             out.infra.append("kani harness %s: FAILED without a failed check (tool limit?)" % short)
         # group failed checks into obligations: harness + description (user assertion message or panic kind)
         seen = set()
+        # Observed once (DESIGN 9.5): for one scratch checkout path the `start`-feature exec harness reported pointer
+        # failures only inside liballoc/libcore (Vec::push, ptr::read) together with an unreachable cover, while the
+        # identical tree under other paths passes.  A harness whose cover is unreachable never got to the code under
+        # test; if in addition every failed check lies in the standard library, nothing is known about the
+        # repository's code: undecided, not a violation.  Failures located in repository or harness code stay violations.
+        if hr.get("cover_unsat") and hr["failed"] and all(("/rustlib/src/rust/library/" in (fc.get("loc") or "") or (fc.get("loc") or "").startswith("library/kani/")) for fc in hr["failed"]):
+            out.infra.append("kani harness %s: %d failed checks, all inside the standard library, with an unreachable cover: "
+                             "the harness never reached the code under test (tool artifact) — undecided" % (short, len(hr["failed"])))
+            continue
         for fc in hr["failed"]:
             desc = fc["desc"]
             if "not currently supported" in desc or "is not supported" in desc or "unsupported" in desc.lower():
